@@ -167,6 +167,14 @@ def run(out, prop, tier, seed, only_slices=None):
     if not only_slices:
         lres = tlc.run('MC_MibCopy', 'live.cfg', files={'live.cfg': CFG.format(fs='FileSets_q', ds='Dests_q') + 'SPECIFICATION Spec\nPROPERTY Termination\n'}, timeout=3000)
         out.add_tlc(lres, 'MibCopy/liveness(Termination under WF)')
+    if tier != 'quick' and not only_slices:
+        # unbounded argument: inductive invariant of the visiting loop discharged by Apalache (any number of files / revisions)
+        from harness import apalache
+        for init, inv, length in (('RealInit', 'IndInv', 0), ('IndInit', 'IndInv', 1), ('IndInit', 'Goal', 0)):
+            r = apalache.check('MibCopyInd', init, inv, length)
+            out.extra.setdefault('apalache', []).append(r)
+            if not r['ok']:
+                out.machinery_errors.append('Apalache obligation not discharged: %s (%s) %s' % (r['obligation'], r['outcome'], r['tail']))
     out.assumptions += ['the visiting order is the order of the COPIED / NOT COPIED / FAILED lines of the script',
                         'a copy is identified by the "-- id N" comment on its first line',
                         "a file's revision is its first REVISION clause (SMIv2 lists the latest first); files listing revisions in ascending order are out of scope"]
